@@ -831,7 +831,7 @@ def run_rotation(tkind, ops, clock_mode, pre_kind, workdir, archive=False):
     d = os.path.join(workdir, "rot")
     shutil.rmtree(d, ignore_errors=True)
     os.makedirs(d)
-    spec = facts.rotation_formats(S.PathTemplateWriter)[0]
+    spec = facts.rotation_formats(S.PathTemplateWriter, stamp_only=True)[0]
     clock = make_clock(clock_mode)
     stamps = [format(c, spec) for c in clock]
 
